@@ -37,7 +37,7 @@ def one(d):
 
 def main():
     todo = []
-    for d in sorted(glob.glob(os.path.join(VERIF, "seeded", "S_*"))):
+    for d in sorted(glob.glob(os.path.join(VERIF, "seeded", "S*_*"))):
         mp = os.path.join(d, "meta.json")
         meta = json.load(open(mp)) if os.path.exists(mp) else {}
         if "suite_stable_passed" not in meta.get("confirmation", {}):
